@@ -17,15 +17,16 @@ import (
 
 // schedVec is one line of LogMwGen: a complete schedule with the prediction.
 type schedVec struct {
-	N      int      `json:"n"`
-	Retain bool     `json:"retain"`
-	Gates  []string `json:"gates"`
-	MwOn   *bool    `json:"mwon"`   // false: the middleware's level is filtered out by the base handler
-	Nmw    int      `json:"nmw"`    // LogMiddleware instances (default 1)
-	Routes [][]int  `json:"routes"` // per request: the instances it passes, outermost first (default [1])
-	Forms  []string `json:"forms"`  // per request: request-target form (default: rotate by request id)
-	Ops    [][]op   `json:"ops"`
-	Sched  [][]any  `json:"sched"` // [process, gate arrived at]
+	N      int        `json:"n"`
+	Retain bool       `json:"retain"`
+	Gates  []string   `json:"gates"`
+	MwOn   *bool      `json:"mwon"`   // false: the middleware's level is filtered out by the base handler
+	Nmw    int        `json:"nmw"`    // LogMiddleware instances (default 1)
+	Routes [][]int    `json:"routes"` // per request: the instances it passes, outermost first (default [1])
+	Forms  []string   `json:"forms"`  // per request: request-target form (default: rotate by request id)
+	Ups    [][]string `json:"ups"`    // per request: foreign writer wrappers before the LogMiddleware (default: rotate)
+	Ops    [][]op     `json:"ops"`
+	Sched  [][]any    `json:"sched"` // [process, gate arrived at]
 	Pred   []struct {
 		Fin      int   `json:"fin"`
 		Expected int   `json:"expected"`
@@ -54,7 +55,10 @@ func (v *schedVec) key() string {
 		topo = fmt.Sprintf(" %d middleware instances, routes=%v", max(v.Nmw, 1), v.Routes)
 	}
 	if v.MwOn != nil && !*v.MwOn {
-		topo += " middleware level below the handler's minimum"
+		topo += " middleware level below the handler's minimum at construction (0 in the schedule = SetLevel)"
+	}
+	if len(v.Ups) > 0 {
+		topo += fmt.Sprintf(" foreign writer wrappers=%v", v.Ups)
 	}
 	return fmt.Sprintf("LogMiddleware requests=[%s]%s retain=%v gates=%s schedule=%s%s",
 		strings.Join(beh, " | "), topo, v.Retain, strings.Join(v.Gates, "+"), b.String(), v.warm)
@@ -79,6 +83,12 @@ const stepPatience = 10 * time.Second
 // the scheduled requests start; without it they start from empty pools.
 func runSchedule(v *schedVec, ridBase int, warm bool, tr *tracer) (out schedOutcome) {
 	e := &env{s: sched.New(), gates: map[string]bool{}, retain: v.Retain, tr: tr, mwOff: v.MwOn != nil && !*v.MwOn, forms: v.Forms}
+	if len(v.Ups) == v.N {
+		e.ups = make([][]string, v.N)
+		for i, u := range v.Ups {
+			e.ups[i] = append([]string{}, u...) // non-nil: "no wrapper" is a choice, not a default
+		}
+	}
 	routeOf := func(p int) []int {
 		if p < len(v.Routes) && len(v.Routes[p]) > 0 {
 			return v.Routes[p]
@@ -117,7 +127,8 @@ func runSchedule(v *schedVec, ridBase int, warm bool, tr *tracer) (out schedOutc
 		if tr != nil {
 			tr.begin(st)
 		}
-		through(mws, st.route, e.inner(func(*http.Request) *reqState { return st })).ServeHTTP(st.w, r)
+		st.begin(e)
+		throughUp(st.up, mws, st.route, e.inner(func(*http.Request) *reqState { return st })).ServeHTTP(st.w, r)
 		if tr != nil {
 			tr.end(st)
 		}
@@ -127,8 +138,9 @@ func runSchedule(v *schedVec, ridBase int, warm bool, tr *tracer) (out schedOutc
 		sts[p] = st
 		names[p] = "r" + strconv.Itoa(p+1)
 		st.route = routeOf(p)
-		h := through(mws, st.route, e.inner(func(*http.Request) *reqState { return st }))
+		h := throughUp(st.up, mws, st.route, e.inner(func(*http.Request) *reqState { return st }))
 		e.s.Go(names[p], func() {
+			st.begin(e)
 			if tr != nil {
 				tr.begin(st)
 			}
@@ -150,6 +162,11 @@ func runSchedule(v *schedVec, ridBase int, warm bool, tr *tracer) (out schedOutc
 	for i, ent := range v.Sched {
 		p := int(ent[0].(float64)) - 1
 		want, _ := ent[1].(string)
+		if p < 0 {
+			// process 0 is the environment: SetLevel while nobody is in flight
+			e.setLevel(want == "level:on")
+			continue
+		}
 		stt, pt := step(names[p])
 		if stt == sched.Blocked {
 			out.hang = fmt.Sprintf("request %d did not reach %q within %s at schedule step %d", p+1, want, stepPatience, i+1)
